@@ -12,9 +12,11 @@ General theorems about the channel transition system of Base/Chan.lean, for ALL 
                           ends with the program finished, every channel closed exactly once, observed
                           closed, and everything received;
 * `stuck_sequential`    : the same for the consumer that drains channel 0 first and channel 1 afterwards,
-                          provided channel 1 can buffer everything sent to it;
-* `sequential_blocks`   : conversely, ANY producer program that performs more sends on channel 1 before
-                          closing channel 0 than channel 1 can buffer never finishes against that consumer.
+                          provided channel 1 can buffer what is sent to it BEFORE channel 0 is closed (nothing,
+                          for a producer that closes channel 0 first: then every capacity will do);
+* `sequential_blocks`   : conversely, a producer program that performs more sends on channel 1 BEFORE closing
+                          channel 0 than channel 1 can buffer never finishes against that consumer (a statement
+                          about that send order, not about all producers).
 -/
 namespace PolyVerif.Chan
 variable {α : Type}
@@ -498,13 +500,104 @@ theorem buf_le_sends {chs : List Nat} {caps : Nat → Nat} {P : List (Op α)} {s
   simp only [List.length_append] at this
   omega
 
-/-- Sequential consumer (channel 0 until closed, then channel 1): every maximal run ends in the
-finished state, for every capacity of channel 0, provided channel 1 buffers all that is sent on it. -/
-theorem stuck_sequential {caps : Nat → Nat} {P : List (Op α)} {s : Sys α}
-    (hwf : WFProg [0, 1] P) (hcap : (sends 1 P).length ≤ caps 1)
+/-- number of sends on channel 1 that the program performs before its first `close 0`
+(`none`: the program never closes channel 0) -/
+def sendsBeforeClose0 : List (Op α) → Option Nat
+  | [] => none
+  | .close c :: r => if c = 0 then some 0 else sendsBeforeClose0 r
+  | .send c _ :: r => (sendsBeforeClose0 r).map (fun k => k + if c = 1 then 1 else 0)
+
+theorem sequential_ready_zero {h : List (Obs α)} {ch : Nat} (hu : seen h 0 = false)
+    (hr : (sequential : Consumer α).ready h ch = true) : ch = 0 := by
+  by_cases h0 : ch = 0
+  · exact h0
+  · by_cases h1 : ch = 1 <;> simp [sequential, h0, h1, hu] at hr
+
+/-- while channel 0 is open, the sends on channel 1 that precede `close 0` are either still to do or
+sitting in channel 1's buffer (the sequential consumer has not touched channel 1 yet) -/
+def SeqInv (n : Nat) (s : Sys α) : Prop :=
+  (s.chans 0).closed = false → ∃ k, sendsBeforeClose0 s.prog = some k ∧ k + (s.chans 1).buf.length = n
+
+theorem seqInv_step {chs : List Nat} {caps : Nat → Nat} {P : List (Op α)} {n : Nat} {s t : Sys α}
+    (hi : Inv chs caps P s) (hq : SeqInv n s) (hst : Step sequential s t) : SeqInv n t := by
+  have hnp := (inv_step hi hst).noPanic
+  have hunseen : (s.chans 0).closed = false → seen s.hist 0 = false := by
+    intro hc
+    cases h : seen s.hist 0 with
+    | false => rfl
+    | true => have := (hi.seenOk 0 h).1; rw [hc] at this; cases this
+  cases hst with
+  | @sendBuf ch v rest hp hopen hroom =>
+    intro hc
+    have hc0 : (s.chans 0).closed = false := by
+      by_cases e0 : ch = 0
+      · subst e0; exact hopen
+      · simpa [upd_other _ _ (fun h : 0 = ch => e0 h.symm)] using hc
+    obtain ⟨k, hk, hn⟩ := hq hc0
+    rw [hp] at hk
+    simp only [sendsBeforeClose0, Option.map_eq_some_iff] at hk
+    obtain ⟨k', hk', rfl⟩ := hk
+    refine ⟨k', hk', ?_⟩
+    by_cases e : ch = 1
+    · subst e; simp only [upd_same, List.length_append, List.length_singleton]; simp at hn; omega
+    · simp only [upd_other _ _ (fun h : 1 = ch => e h.symm)]; simpa [e] using hn
+  | @sendSync ch v rest hp hopen hzero hready =>
+    intro hc
+    obtain ⟨k, hk, hn⟩ := hq hc
+    have e0 := sequential_ready_zero (hunseen hc) hready
+    subst e0
+    rw [hp] at hk
+    simp only [sendsBeforeClose0, Option.map_eq_some_iff] at hk
+    obtain ⟨k', hk', rfl⟩ := hk
+    exact ⟨k', hk', by simpa using hn⟩
+  | sendClosed _ _ => cases hnp
+  | @close ch rest hp hopen =>
+    intro hc
+    by_cases e0 : ch = 0
+    · subst e0; simp at hc
+    · have hc0 : (s.chans 0).closed = false := by
+        simpa [upd_other _ _ (fun h : 0 = ch => e0 h.symm)] using hc
+      obtain ⟨k, hk, hn⟩ := hq hc0
+      rw [hp] at hk
+      simp only [sendsBeforeClose0, if_neg e0] at hk
+      refine ⟨k, hk, ?_⟩
+      by_cases e : ch = 1
+      · subst e; simpa using hn
+      · simpa [upd_other _ _ (fun h : 1 = ch => e h.symm)] using hn
+  | closeClosed _ _ => cases hnp
+  | @recv ch v b hready hb =>
+    intro hc
+    by_cases e0 : ch = 0
+    · subst e0
+      have hc0 : (s.chans 0).closed = false := by simpa using hc
+      obtain ⟨k, hk, hn⟩ := hq hc0
+      exact ⟨k, hk, by simpa [upd_other _ _ (show (1 : Nat) ≠ 0 by decide)] using hn⟩
+    · have hc0 : (s.chans 0).closed = false := by
+        simpa [upd_other _ _ (fun h : 0 = ch => e0 h.symm)] using hc
+      exact absurd (sequential_ready_zero (hunseen hc0) hready) e0
+  | @recvClosed ch hready hb hclosed =>
+    intro hc
+    have e0 := sequential_ready_zero (hunseen hc) hready
+    subst e0
+    rw [hc] at hclosed; cases hclosed
+
+theorem seqInv_reach {caps : Nat → Nat} {P : List (Op α)} {n : Nat} {s : Sys α}
+    (hwf : WFProg [0, 1] P) (hn : sendsBeforeClose0 P = some n) (hr : Reach sequential (init caps P) s) :
+    Inv [0, 1] caps P s ∧ SeqInv n s := by
+  generalize hi : init caps P = i at hr
+  induction hr with
+  | refl => subst hi; exact ⟨inv_init _ caps P hwf, fun _ => ⟨n, hn, by simp [init]⟩⟩
+  | tail _ hst ih => exact ⟨inv_step ih.1 hst, seqInv_step ih.1 ih.2 hst⟩
+
+/-- Sequential consumer (channel 0 until closed, then channel 1): every maximal run ends in the finished
+state, for every capacity of channel 0, provided channel 1 can buffer the values that are sent on it BEFORE
+channel 0 is closed (`n` of them; a producer that closes channel 0 first has `n = 0`, and then every
+capacity of channel 1 will do, 0 included). -/
+theorem stuck_sequential {caps : Nat → Nat} {P : List (Op α)} {n : Nat} {s : Sys α}
+    (hwf : WFProg [0, 1] P) (hn : sendsBeforeClose0 P = some n) (hcap : n ≤ caps 1)
     (hr : Reach sequential (init caps P) s) (hs : Stuck sequential s) :
     Finished [0, 1] P s := by
-  have hi := inv_reach hwf hr
+  obtain ⟨hi, hq⟩ := seqInv_reach hwf hn hr
   obtain ⟨hprod, hcons⟩ := stuck_cases hi hs
   have hp : s.prog = [] := by
     rcases hprod with hp | ⟨ch, v, rest, hp, hch, hopen, hnr, hfull⟩
@@ -517,10 +610,20 @@ theorem stuck_sequential {caps : Nat → Nat} {P : List (Op α)} {s : Sys α}
       simp only [List.mem_cons, List.not_mem_nil, or_false] at hch
       rcases hch with rfl | rfl
       · simp [sequential, hns] at hnr
-      · have hl := buf_le_sends hi 1
+      · -- blocked on a send to channel 1: the consumer is not ready there, so it has not seen channel 0 closed
+        have h0 : seen s.hist 0 = false := by
+          cases h : seen s.hist 0 with
+          | false => rfl
+          | true => simp [sequential, h, hns] at hnr
+        -- it is ready on channel 0, so (stuck) channel 0 is open and empty
+        have hready0 : (sequential : Consumer α).ready s.hist 0 = true := by simp [sequential, h0]
+        have hopen0 := (hcons 0 hready0).2
+        obtain ⟨k, hk, hkn⟩ := hq hopen0
+        rw [hp] at hk
+        simp only [sendsBeforeClose0, Option.map_eq_some_iff] at hk
+        obtain ⟨k', _, rfl⟩ := hk
         have hc1 := (hi.capOk 1).2
-        rw [hp, sends_send] at hl
-        simp only [if_true, List.length_cons] at hl
+        simp only [if_true] at hkn
         omega
   have h0 : seen s.hist 0 = true := by
     cases h : seen s.hist 0 with
@@ -580,24 +683,11 @@ theorem prog_nil_of_closed {caps : Nat → Nat} {P : List (Op α)} {s : Sys α}
 
 /-! ### the corner: a sequential consumer and an error channel that is too small -/
 
-/-- number of sends on channel 1 that the program performs before its first `close 0`
-(`none`: the program never closes channel 0) -/
-def sendsBeforeClose0 : List (Op α) → Option Nat
-  | [] => none
-  | .close c :: r => if c = 0 then some 0 else sendsBeforeClose0 r
-  | .send c _ :: r => (sendsBeforeClose0 r).map (fun k => k + if c = 1 then 1 else 0)
-
 structure BlockInv (n c : Nat) (s : Sys α) : Prop where
   pending : ∃ k, sendsBeforeClose0 s.prog = some k ∧ n ≤ k + (s.chans 1).buf.length
   open0 : (s.chans 0).closed = false
   unseen0 : seen s.hist 0 = false
   cap1 : (s.chans 1).buf.length ≤ (s.chans 1).cap ∧ (s.chans 1).cap = c
-
-theorem sequential_ready_zero {h : List (Obs α)} {ch : Nat} (hu : seen h 0 = false)
-    (hr : (sequential : Consumer α).ready h ch = true) : ch = 0 := by
-  by_cases h0 : ch = 0
-  · exact h0
-  · by_cases h1 : ch = 1 <;> simp [sequential, h0, h1, hu] at hr
 
 theorem blockInv_step {n c : Nat} (hc : c < n) {s t : Sys α}
     (hi : s.panicked = true ∨ BlockInv n c s) (hst : Step sequential s t) :
